@@ -14,9 +14,9 @@
 From Coq Require Import List String Ascii ZArith Bool Arith Lia.
 Import ListNotations.
 From KV Require Import Base.Bytes Base.Num Model.Ast Model.Value Model.Eval Model.EvalVec Model.Cache
-                       Model.ScanProj Model.CacheVec Model.LimitLazy Model.SelectPlans Model.CachePlans
+                       Model.ScanProj Model.CacheVec Model.LimitLazy Model.AggregateLazy Model.SelectPlans Model.CachePlans
                        Proofs.CacheProofs Proofs.EvalVecProofs Proofs.CacheVecProofs.
-From KV Require Model.Limit Model.Order Model.Aggregate Spec.Group Proofs.ScanProjProofs.
+From KV Require Model.Limit Model.Order Model.Aggregate Spec.Group Proofs.ScanProjProofs Proofs.AggregateLazyProofs.
 Local Open Scope nat_scope.
 Local Open Scope list_scope.
 
@@ -367,20 +367,44 @@ Proof.
 Qed.
 
 (* ---- AggregatePlan.prepare: the expressions evaluated on one pair *)
-Lemma evals_c_sim on env kv : forall es evs, forallb (coherent env) es = true ->
+Lemma evals_c_sim on env kv : forall es, forallb (coherent env) es = true ->
   forall c, good on env (fst kv) (snd kv) c ->
-  simr (good on env (fst kv) (snd kv)) (evals_row fo re_match es kv) (evals_c fo re_match on evs es kv c).
+  simr (good on env (fst kv) (snd kv)) (evals_row fo re_match es kv) (evals_c fo re_match on es kv c).
 Proof.
-  induction es as [|e es IH]; intros evs Hco c Hq; cbn [evals_row evals_c].
+  induction es as [|e es IH]; intros Hco c Hq; cbn [evals_row evals_c].
   - apply sim_ret, Hq.
   - cbn [forallb] in Hco. apply andb_true_iff in Hco. destruct Hco as [He Hes].
-    apply sim_bind.
-    + destruct (hd true evs).
-      * apply eval_c_good; assumption.
-      * apply sim_lift, Hq.
-    + intros v c1 Hq1. apply sim_bind; [apply sim_lift, Hq1|].
+    apply sim_bind; [apply eval_c_good; assumption|].
+    intros v c1 Hq1. apply sim_bind; [apply sim_lift, Hq1|].
+    intros g c2 Hq2. apply sim_bind; [apply IH; assumption|].
+    intros gs c3 Hq3. apply sim_ret, Hq3.
+Qed.
+
+Lemma evals_need_c_sim on env kv need : forall es i, forallb (coherent env) es = true ->
+  forall c, good on env (fst kv) (snd kv) c ->
+  simr (good on env (fst kv) (snd kv)) (evals_need fo re_match need i es kv)
+       (evals_need_c fo re_match on need i es kv c).
+Proof.
+  induction es as [|e es IH]; intros i Hco c Hq; cbn [evals_need evals_need_c].
+  - apply sim_ret, Hq.
+  - cbn [forallb] in Hco. apply andb_true_iff in Hco. destruct Hco as [He Hes].
+    destruct (need i).
+    + apply sim_bind; [apply eval_c_good; assumption|].
+      intros v c1 Hq1. apply sim_bind; [apply sim_lift, Hq1|].
       intros g c2 Hq2. apply sim_bind; [apply IH; assumption|].
       intros gs c3 Hq3. apply sim_ret, Hq3.
+    + apply sim_bind; [apply IH; assumption|].
+      intros gs c3 Hq3. apply sim_ret, Hq3.
+Qed.
+
+(* a computation started on the cleared context that simulates [r] returns [r] *)
+Lemma run0_of_sim {A} (Q : cache fo -> Prop) (r : res A) (m : M fo A) : simr Q r (m []) -> run0 fo m = r.
+Proof.
+  intros H. unfold run0. destruct r as [a|e| |]; cbn in H.
+  - destruct H as (c' & -> & _). reflexivity.
+  - rewrite H. reflexivity.
+  - rewrite H. reflexivity.
+  - rewrite H. reflexivity.
 Qed.
 
 Section OnePair.
@@ -398,93 +422,84 @@ Proof.
   apply andb_true_iff in H12. destruct H12 as [H1 H2]. auto.
 Qed.
 
-Lemma keys_args_sim isnew kv c : good on env (fst kv) (snd kv) c ->
-  simr (good on env (fst kv) (snd kv))
-       (do k <- evals_row fo re_match (cq_keys fo q) kv;
-        do a <- evals_row fo re_match (cq_args fo q) kv; Ok (k, a))
-       (keys_args_c fo re_match on q isnew kv c).
+(* the lazy observation of Model/SelectPlans.v over the statement's expressions *)
+Definition lobs_tail_q (p : Group.plan (F fo)) :=
+  lobs_tail (f_fmt fo) (a_bits fo ag) (evals_row fo re_match (cq_keys fo q))
+            (fun need => evals_need fo re_match need 0 (cq_args fo q)) p.
+
+(* createAggrRow (new key only) + updateRowAggrFunc with the context: the same evaluations, in
+   the same order, with the same outcome as without *)
+Lemma obs_tail_c_sim p t kv g c : good on env (fst kv) (snd kv) c ->
+  simr (good on env (fst kv) (snd kv)) (lobs_tail_q p t kv g) (obs_tail_c fo re_match ag on q p t kv g c).
 Proof.
-  intros Hq. destruct cq_ok_parts as (_ & _ & Hk & Ha). unfold keys_args_c.
-  apply sim_bind; [apply evals_c_sim; assumption|].
-  intros k c1 Hq1. apply sim_bind; [apply evals_c_sim; assumption|].
-  intros a c2 Hq2. apply sim_ret, Hq2.
+  intros Hq. destruct cq_ok_parts as (_ & _ & Hk & Ha). unfold lobs_tail_q, lobs_tail, obs_tail_c.
+  destruct (seen_mem (lkey (f_fmt fo) (a_bits fo ag) p g) t).
+  - apply sim_bind; [apply evals_need_c_sim; assumption|].
+    intros a c1 Hq1. apply sim_ret, Hq1.
+  - apply sim_bind; [apply evals_c_sim; assumption|].
+    intros k c1 Hq1. apply sim_bind; [apply evals_need_c_sim; assumption|].
+    intros a c2 Hq2. apply sim_ret, Hq2.
 Qed.
 
-Lemma run0_keys_args isnew kv :
-  run0 fo (keys_args_c fo re_match on q isnew kv) =
-  (do k <- evals_row fo re_match (cq_keys fo q) kv;
-   do a <- evals_row fo re_match (cq_args fo q) kv; Ok (k, a)).
+Lemma run0_obs_tail p t kv g :
+  run0 fo (obs_tail_c fo re_match ag on q p t kv g) = lobs_tail_q p t kv g.
 Proof.
-  pose proof (keys_args_sim isnew kv [] (good_empty fo re_match on env (fst kv) (snd kv))) as H.
-  unfold run0.
-  destruct (do k <- evals_row fo re_match (cq_keys fo q) kv;
-            do a <- evals_row fo re_match (cq_args fo q) kv; Ok (k, a)) as [ka|e| |]; cbn in H.
-  - destruct H as (c' & -> & _). reflexivity.
-  - rewrite H. reflexivity.
-  - rewrite H. reflexivity.
-  - rewrite H. reflexivity.
+  apply (run0_of_sim (good on env (fst kv) (snd kv))). apply obs_tail_c_sim, good_empty.
 Qed.
 
-(* aggrMap's keys after the pair with GROUP BY values [g] *)
-Definition seen_step (p : Group.plan (F fo)) (seen : list bytes) (g : list gvalue) : list bytes :=
-  if negb (key_seen (group_key fo ag p g) seen) then group_key fo ag p g :: seen else seen.
-
-(* the loop body of prepare observes exactly what the cache-free composition (Model/SelectPlans.v
-   c_obs_row) observes -- whatever the cache setting, whatever groups exist already *)
-Lemma obs_row_c_spec p seen kv :
-  obs_row_c fo re_match ag on q p seen kv =
-  (do o <- c_obs_row fo re_match (cq_group fo q) (cq_keys fo q) (cq_args fo q) kv;
-   Ok (o, seen_step p seen (Group.p_g o))).
+(* one iteration of prepare with the context IS the lazy observation of the cache-free
+   composition (Model/SelectPlans.v c_lobs_row = Model/AggregateLazy.v lobs_row over the evaluator
+   twins): the same (expression, pair) combinations are asked for, the same values / the same
+   error come back, the same keys are recorded -- whatever the cache setting *)
+Lemma obs_row_c_spec p t kv :
+  obs_row_c fo re_match ag on q p t kv =
+  c_lobs_row fo re_match ag (cq_group fo q) (cq_keys fo q) (cq_args fo q) p t kv.
 Proof.
   destruct cq_ok_parts as (_ & Hg & _ & _).
-  unfold obs_row_c, c_obs_row, run0.
-  pose proof (evals_c_sim on env kv (cq_group fo q) [] Hg [] (good_empty fo re_match on env (fst kv) (snd kv))) as Hs.
-  unfold bindc at 1.
-  destruct (evals_row fo re_match (cq_group fo q) kv) as [g|e| |]; cbn in Hs; cbn [bind].
-  2-4: rewrite Hs; reflexivity.
-  destruct Hs as (c1 & -> & Hq1).
-  pose proof (keys_args_sim (negb (key_seen (group_key fo ag p g) seen)) kv c1 Hq1) as Hk.
-  unfold bindc.
-  destruct (evals_row fo re_match (cq_keys fo q) kv) as [k|e| |]; cbn [bind] in Hk |- *.
-  2-4: cbn in Hk; rewrite Hk; reflexivity.
-  destruct (evals_row fo re_match (cq_args fo q) kv) as [a|e| |]; cbn [bind] in Hk |- *.
-  2-4: cbn in Hk; rewrite Hk; reflexivity.
-  cbn in Hk. destruct Hk as (c2 & -> & _). cbn [fst snd Group.p_g]. unfold ret, seen_step. reflexivity.
+  unfold obs_row_c, c_lobs_row, lobs_row.
+  apply (run0_of_sim (good on env (fst kv) (snd kv))).
+  apply sim_bind.
+  - destruct (Group.pl_all p).
+    + apply sim_ret, good_empty.
+    + apply evals_c_sim; [exact Hg | apply good_empty].
+  - intros g c Hq. apply obs_tail_c_sim, Hq.
 Qed.
 
-(* prepare's loop = the row drain of the cache-free composition with the observation in the
-   place of the projection *)
-Lemma agg_obs_row_c_spec p : forall ps seen,
-  agg_obs_row_c fo re_match ag on q p seen ps =
-  ScanProj.drain_row (sel_frow fo re_match (s_where (cq_sel fo q)))
-                     (c_obs_row fo re_match (cq_group fo q) (cq_keys fo q) (cq_args fo q)) (map Some ps).
+(* prepare's loop = the loop of the lazy cache-free composition *)
+Lemma agg_obs_row_c_spec p : forall ps t,
+  agg_obs_row_c fo re_match ag on q p t ps =
+  sdrain_row (sel_frow fo re_match (s_where (cq_sel fo q)))
+             (c_lobs_row fo re_match ag (cq_group fo q) (cq_keys fo q) (cq_args fo q) p) t (map Some ps).
 Proof.
-  intros ps seen. rewrite ScanProjProofs.drain_row_spec.
+  intros ps t. rewrite AggregateLazyProofs.sdrain_row_spec.
   replace (somes (map Some ps)) with ps by (induction ps as [|x l IHl]; cbn; congruence).
-  revert seen. induction ps as [|kv ps IH]; intros seen; cbn [agg_obs_row_c ScanProjProofs.row_list]; [reflexivity|].
+  revert t. induction ps as [|kv ps IH]; intros t; cbn [agg_obs_row_c AggregateLazyProofs.srow_list]; [reflexivity|].
   unfold sel_frow at 1.
   destruct (filter_row fo re_match (fst kv) (snd kv) (s_where (cq_sel fo q))) as [ok|e| |]; cbn [bind]; try reflexivity.
   destruct ok; [|apply IH].
   rewrite obs_row_c_spec.
-  destruct (c_obs_row fo re_match (cq_group fo q) (cq_keys fo q) (cq_args fo q) kv) as [o|e| |]; cbn [bind]; try reflexivity.
-  cbn [fst snd]. rewrite IH. reflexivity.
+  destruct (c_lobs_row fo re_match ag (cq_group fo q) (cq_keys fo q) (cq_args fo q) p t kv) as [ot|e| |];
+    cbn [bind]; try reflexivity.
+  rewrite IH. reflexivity.
 Qed.
 
 End OnePair.
 
-(* AggregatePlan(scan) drained by Next: with the cache (on or off) it IS the cache-free
-   composition of Model/SelectPlans.v over the same expressions *)
+(* AggregatePlan(scan) drained by Next: with the cache (on or off) it IS the cache-free LAZY
+   composition of Model/SelectPlans.v (agg_rows over Model/AggregateLazy.v) over the same expressions *)
 Lemma arows_c_is_agg_rows on q p ps : cq_ok fo q = true ->
   arows_c fo re_match ag on q p ps =
   agg_rows kvpair (sel_frow fo re_match (s_where (cq_sel fo q)))
     (F fo) (fadd fo) (fsub fo) (fmul fo) (fdiv fo) (fltb fo) (a_is0 fo ag) (f_of_Z fo) (a_to_Z fo ag) (f_fmt fo)
-    (a_bits fo ag) (a_json_f fo ag) (a_parse fo ag) (a_json_s fo ag)
-    (c_obs_row fo re_match (cq_group fo q) (cq_keys fo q) (cq_args fo q)) (aconv_row fo (a_fbits fo ag))
+    (a_bits fo ag) (a_json_f fo ag) (a_parse fo ag) (a_json_s fo ag) seen []
+    (c_lobs_row fo re_match ag (cq_group fo q) (cq_keys fo q) (cq_args fo q)) (aconv_row fo (a_fbits fo ag))
     p (map Some ps).
 Proof.
   intros Hok. unfold arows_c, agg_rows, agg_row, run_agg_row.
   rewrite (agg_obs_row_c_spec on q Hok p ps []).
-  destruct (ScanProj.drain_row _ _ (map Some ps)); reflexivity.
+  destruct (sdrain_row (sel_frow fo re_match (s_where (cq_sel fo q)))
+              (c_lobs_row fo re_match ag (cq_group fo q) (cq_keys fo q) (cq_args fo q) p) [] (map Some ps));
+    reflexivity.
 Qed.
 
 Lemma arows_c_onoff q p ps : cq_ok fo q = true ->
@@ -564,9 +579,6 @@ Proof.
 Qed.
 
 (* ---- one iteration of prepareBatch *)
-Definition seen_after (p : Group.plan (F fo)) (seen : list bytes) (obs : list pobs) : list bytes :=
-  fold_left (fun sn o => seen_step fo ag p sn (Group.p_g o)) obs seen.
-
 Section Step.
 Variable q : cq.
 Hypothesis Hok : cq_ok fo q = true.
@@ -574,53 +586,106 @@ Variable p : Group.plan (F fo).
 Let sel := cq_sel fo q.
 Let env := env_of sel.
 
-Definition obsb : list kvpair -> res (list pobs) :=
-  c_obs_batch fo re_match (cq_group fo q) (cq_keys fo q) (cq_args fo q).
+(* the lazy observation of a chunk in the cache-free composition (Model/SelectPlans.v) *)
+Definition lobsb : seen -> list kvpair -> res (list pobs * seen) :=
+  c_lobs_batch fo re_match ag (cq_group fo q) (cq_keys fo q) (cq_args fo q) p.
 
-(* the same iteration in the cache-free composition: ScanProj.proj_batch with the observation in
-   the place of the projection (the keys of aggrMap are carried along) *)
-Definition ref_step (B : nat) (st : list bytes * list (option kvpair))
-  : res (list pobs * (list bytes * list (option kvpair))) :=
-  do r <- ScanProj.proj_batch (fb fo re_match sel) obsb B (snd st);
-  Ok (fst r, (seen_after p (fst st) (fst r), snd r)).
+(* batchGetAggrKeys without the context *)
+Definition batch_g_ref (ch : list kvpair) : res (list (list gvalue)) :=
+  if Group.pl_all p then Ok (map (fun _ => []) ch) else c_batch_g fo re_match (cq_group fo q) ch.
 
-Lemma obs_zip_c_spec on : forall ch grows seen,
-  obs_zip_c fo re_match ag on q p seen ch grows =
-  (do obs <- obs_zip fo re_match (cq_keys fo q) (cq_args fo q) ch grows; Ok (obs, seen_after p seen obs)).
+Lemma batch_g_off kv ch st :
+  batch_g_c fo re_match keyfix false q p (kv :: ch) st = liftv fo (batch_g_ref (kv :: ch)) st.
 Proof.
-  induction ch as [|kv ch IH]; intros grows seen; cbn [obs_zip_c obs_zip]; [reflexivity|].
-  destruct grows as [|grow grows]; [reflexivity|].
-  destruct (gvals fo grow) as [g|e| |]; cbn [bind]; try reflexivity.
-  rewrite (run0_keys_args fo re_match on q Hok).
-  destruct (evals_row fo re_match (cq_keys fo q) kv) as [k|e| |]; cbn [bind]; try reflexivity.
-  destruct (evals_row fo re_match (cq_args fo q) kv) as [a|e| |]; cbn [bind]; try reflexivity.
-  rewrite IH.
-  destruct (obs_zip fo re_match (cq_keys fo q) (cq_args fo q) ch grows) as [obs|e| |]; cbn [bind]; try reflexivity.
+  unfold batch_g_c, batch_g_ref. destruct (Group.pl_all p); [reflexivity|].
+  unfold bindv. rewrite cols_seq_off. unfold liftv, c_batch_g, ScanProj.project_batch.
+  destruct (project_cols fo re_match (cq_group fo q) (kv :: ch)) as [cols|e| |]; cbn [bind]; reflexivity.
 Qed.
 
-Lemma agg_step_off B seen rest :
-  agg_batch_step_c fo re_match keyfix ag false q p B (seen, rest) = ref_step B (seen, rest).
+Lemma batch_g_on kvr rows0 st1 (Hn : names_ok keyfix sel = true) T st :
+  Qon env kvr rows0 st1 T st ->
+  simv (fun _ => True) (batch_g_ref (kvr :: rows0)) (batch_g_c fo re_match keyfix true q p (kvr :: rows0) st).
 Proof.
-  unfold agg_batch_step_c, ref_step, ScanProj.proj_batch, scan_batch_c, ScanProj.scan_batch. cbn [fst snd].
+  intros Hq. destruct (cq_ok_parts fo q Hok) as (_ & Hg & _ & _).
+  unfold batch_g_c, batch_g_ref. destruct (Group.pl_all p).
+  - apply simv_ret. exact I.
+  - unfold c_batch_g, ScanProj.project_batch.
+    assert (E : (do grows <- (do cols <- project_cols fo re_match (cq_group fo q) (kvr :: rows0);
+                              transpose fo (kvr :: rows0) cols); gvals_all fo grows) =
+                (do cols <- project_cols fo re_match (cq_group fo q) (kvr :: rows0);
+                 do grows <- transpose fo (kvr :: rows0) cols; gvals_all fo grows)).
+    { destruct (project_cols fo re_match (cq_group fo q) (kvr :: rows0)); reflexivity. }
+    rewrite E. eapply simv_bind.
+    + apply (cols_seq_on env kvr rows0 st1 (keq_inj keyfix sel Hn) (cq_group fo q) T st Hg Hq).
+    + intros cols s1 _. apply simv_lift. exact I.
+Qed.
+
+Lemma obs_zip_c_spec on : forall ch gss t,
+  obs_zip_c fo re_match ag on q p t ch gss =
+  lobs_zip (f_fmt fo) (a_bits fo ag) (evals_row fo re_match (cq_keys fo q))
+           (fun need => evals_need fo re_match need 0 (cq_args fo q)) p t ch gss.
+Proof.
+  induction ch as [|kv ch IH]; intros gss t; cbn [obs_zip_c lobs_zip]; [reflexivity|].
+  destruct gss as [|g gss]; [reflexivity|].
+  rewrite (run0_obs_tail fo re_match ag on q Hok). unfold lobs_tail_q.
+  destruct (lobs_tail (f_fmt fo) (a_bits fo ag) (evals_row fo re_match (cq_keys fo q))
+              (fun need => evals_need fo re_match need 0 (cq_args fo q)) p t kv g) as [ot|e| |];
+    cbn [bind]; try reflexivity.
+  rewrite IH. reflexivity.
+Qed.
+
+Lemma obs_batch_off t kv ch cx :
+  obs_batch_c fo re_match keyfix ag false q p t (kv :: ch) cx = lobsb t (kv :: ch).
+Proof.
+  unfold obs_batch_c, lobsb, c_lobs_batch, lobs_batch. rewrite batch_g_off. unfold liftv.
+  fold (batch_g_ref (kv :: ch)).
+  destruct (batch_g_ref (kv :: ch)) as [gss|e| |]; cbn [bind]; try reflexivity.
+  apply obs_zip_c_spec.
+Qed.
+
+Lemma obs_batch_on (Hn : names_ok keyfix sel = true) t kvr rows0 cx :
+  Post fo re_match sel (kvr :: rows0) cx ->
+  obs_batch_c fo re_match keyfix ag true q p t (kvr :: rows0) cx = lobsb t (kvr :: rows0).
+Proof.
+  intros Hp. unfold obs_batch_c, lobsb, c_lobs_batch, lobs_batch.
+  pose proof (batch_g_on kvr rows0 cx Hn [] cx
+                (Qon_proj_start fo re_match keyfix sel kvr rows0 cx (proj1 Hp))) as Hs.
+  fold (batch_g_ref (kvr :: rows0)).
+  destruct (batch_g_ref (kvr :: rows0)) as [gss|e| |]; cbn in Hs; cbn [bind].
+  - destruct Hs as (s2 & -> & _). apply obs_zip_c_spec.
+  - rewrite Hs. reflexivity.
+  - rewrite Hs. reflexivity.
+  - rewrite Hs. reflexivity.
+Qed.
+
+(* the same iteration in the cache-free composition: the body of AggregateLazy.sdrain_batch_fuel *)
+Definition ref_step (B : nat) (t : seen) (rest : list (option kvpair))
+  : res (option (list pobs * seen) * list (option kvpair)) :=
+  do kr <- ScanProj.scan_batch (fb fo re_match sel) B rest;
+  match kr with
+  | ([], rest') => Ok (None, rest')
+  | (kvs, rest') => do ot <- lobsb t kvs; Ok (Some ot, rest')
+  end.
+
+Lemma agg_step_off B t rest :
+  agg_batch_step_c fo re_match keyfix ag false q p B t rest = ref_step B t rest.
+Proof.
+  unfold agg_batch_step_c, ref_step, scan_batch_c, ScanProj.scan_batch.
   fold sel. rewrite scan_loop_off. unfold slot.
   destruct (@ScanProj.scan_batch_loop kvpair (fb fo re_match sel) (S (List.length rest)) B rest [])
     as [[ret' rest']|e| |]; cbn [bind]; try reflexivity.
   destruct ret' as [|kvr rows0]; [reflexivity|].
-  rewrite cols_seq_off. unfold liftv, obsb, c_obs_batch, ScanProj.project_batch.
-  destruct (project_cols fo re_match (cq_group fo q) (kvr :: rows0)) as [cols|e| |]; cbn [bind]; try reflexivity.
-  destruct (transpose fo (kvr :: rows0) cols) as [grows|e| |]; cbn [bind]; try reflexivity.
-  rewrite obs_zip_c_spec.
-  destruct (obs_zip fo re_match (cq_keys fo q) (cq_args fo q) (kvr :: rows0) grows) as [obs|e| |]; reflexivity.
+  rewrite obs_batch_off. reflexivity.
 Qed.
 
 Hypothesis Hnames : names_ok keyfix sel = true.
 
-Lemma agg_step_on B seen rest : keys_nodup rest ->
-  agg_batch_step_c fo re_match keyfix ag true q p B (seen, rest) = ref_step B (seen, rest) /\
-  (forall obs st', ref_step B (seen, rest) = Ok (obs, st') -> exists j, snd st' = skipn j rest).
+Lemma agg_step_on B t rest : keys_nodup rest ->
+  agg_batch_step_c fo re_match keyfix ag true q p B t rest = ref_step B t rest /\
+  (forall r rest', ref_step B t rest = Ok (r, rest') -> exists j, rest' = skipn j rest).
 Proof.
-  intros Hnd. destruct (cq_ok_parts fo q Hok) as (Hs & Hg & _ & _).
-  unfold agg_batch_step_c, ref_step, ScanProj.proj_batch, scan_batch_c, ScanProj.scan_batch. cbn [fst snd].
+  intros Hnd. destruct (cq_ok_parts fo q Hok) as (Hs & _).
+  unfold agg_batch_step_c, ref_step, scan_batch_c, ScanProj.scan_batch.
   fold sel.
   pose proof (scan_loop_on fo re_match keyfix sel Hs Hnames B (S (List.length rest)) rest [] [] 0 (ctx0 fo) [] []
                            Hnd (inv_start fo re_match sel)) as H.
@@ -629,64 +694,53 @@ Proof.
     as [[ret' rest']|e| |]; cbn [bind].
   - destruct H as (st' & -> & Hp & j & Hj).
     destruct ret' as [|kvr rows0].
-    + split; [reflexivity|]. intros obs st2 E. inversion E; subst. cbn [snd]. eauto.
-    + pose proof (cols_seq_on env kvr rows0 st' (keq_inj keyfix sel Hnames) (cq_group fo q) [] st' Hg
-                              (Qon_proj_start fo re_match keyfix sel kvr rows0 st' (proj1 Hp))) as Hc.
-      unfold obsb, c_obs_batch, ScanProj.project_batch.
-      destruct (project_cols fo re_match (cq_group fo q) (kvr :: rows0)) as [cols|e| |]; cbn in Hc; cbn [bind].
-      * destruct Hc as (s2 & -> & _).
-        destruct (transpose fo (kvr :: rows0) cols) as [grows|e| |]; cbn [bind];
-          try (split; [reflexivity | discriminate]).
-        rewrite obs_zip_c_spec.
-        destruct (obs_zip fo re_match (cq_keys fo q) (cq_args fo q) (kvr :: rows0) grows) as [obs|e| |];
-          cbn [bind]; try (split; [reflexivity | discriminate]).
-        split; [reflexivity|]. intros obs' st2 E. inversion E; subst. cbn [snd]. eauto.
-      * rewrite Hc. split; [reflexivity | discriminate].
-      * rewrite Hc. split; [reflexivity | discriminate].
-      * rewrite Hc. split; [reflexivity | discriminate].
+    + split; [reflexivity|]. intros r r' E. inversion E; subst. eauto.
+    + rewrite (obs_batch_on Hnames t kvr rows0 st' Hp).
+      destruct (lobsb t (kvr :: rows0)) as [ot|e| |]; cbn [bind]; try (split; [reflexivity | discriminate]).
+      split; [reflexivity|]. intros r r' E. inversion E; subst. eauto.
   - rewrite H. split; [reflexivity | discriminate].
   - rewrite H. split; [reflexivity | discriminate].
   - rewrite H. split; [reflexivity | discriminate].
 Qed.
 
-(* prepareBatch's loop = the batch drain of the cache-free composition with the observation in
-   the place of the projection *)
-Lemma agg_obs_batch_fuel_spec on B : forall fuel seen rest, keys_nodup rest ->
-  agg_obs_batch_fuel fo re_match keyfix ag on q p fuel B (seen, rest) =
-  ScanProj.drain_batch_fuel (fb fo re_match sel) obsb fuel B rest.
+(* prepareBatch's loop = the loop of the lazy cache-free composition *)
+Lemma agg_obs_batch_fuel_spec on B : forall fuel t rest, keys_nodup rest ->
+  agg_obs_batch_fuel fo re_match keyfix ag on q p fuel B t rest =
+  sdrain_batch_fuel (fb fo re_match sel) lobsb fuel B t rest.
 Proof.
-  induction fuel as [|f IH]; intros seen rest Hnd;
-    cbn [agg_obs_batch_fuel ScanProj.drain_batch_fuel]; [reflexivity|].
-  destruct (agg_step_on B seen rest Hnd) as [Eon Hsk].
-  assert (E : agg_batch_step_c fo re_match keyfix ag on q p B (seen, rest) = ref_step B (seen, rest))
+  induction fuel as [|f IH]; intros t rest Hnd;
+    cbn [agg_obs_batch_fuel sdrain_batch_fuel]; [reflexivity|].
+  destruct (agg_step_on B t rest Hnd) as [Eon Hsk].
+  assert (E : agg_batch_step_c fo re_match keyfix ag on q p B t rest = ref_step B t rest)
     by (destruct on; [exact Eon | apply agg_step_off]).
-  rewrite E. clear E Eon. unfold ref_step in *. cbn [fst snd] in *.
-  destruct (ScanProj.proj_batch (fb fo re_match sel) obsb B rest) as [[obs rest']|e| |]; cbn [bind]; try reflexivity.
-  cbn [fst snd]. destruct obs as [|o obs]; [reflexivity|].
-  destruct (Hsk _ _ eq_refl) as (j & Hj). cbn [snd] in Hj. subst rest'.
+  rewrite E. clear E Eon. unfold ref_step in *.
+  destruct (ScanProj.scan_batch (fb fo re_match sel) B rest) as [[kvs rest']|e| |]; cbn [bind] in *; try reflexivity.
+  destruct kvs as [|kv kvs]; [reflexivity|].
+  destruct (lobsb t (kv :: kvs)) as [ot|e| |]; cbn [bind] in *; try reflexivity.
+  destruct (Hsk _ _ eq_refl) as (j & ->).
   rewrite IH; [reflexivity | apply NoDup_skipn_keys, Hnd].
 Qed.
 
 End Step.
 
-(* AggregatePlan(scan) drained by Batch: with the cache (on or off) it IS the cache-free
-   composition of Model/SelectPlans.v over the same expressions *)
+(* AggregatePlan(scan) drained by Batch: with the cache (on or off) it IS the cache-free LAZY
+   composition of Model/SelectPlans.v (agg_bats over Model/AggregateLazy.v) over the same expressions *)
 Lemma abats_c_is_agg_bats on q B p sl : cq_ok fo q = true -> names_ok keyfix (cq_sel fo q) = true ->
   keys_nodup sl ->
   abats_c fo re_match keyfix ag on q B p sl =
   agg_bats kvpair (filter_batch fo re_match true (s_where (cq_sel fo q)))
     (F fo) (fadd fo) (fsub fo) (fmul fo) (fdiv fo) (fltb fo) (a_is0 fo ag) (f_of_Z fo) (a_to_Z fo ag) (f_fmt fo)
-    (a_bits fo ag) (a_json_f fo ag) (a_parse fo ag) (a_json_s fo ag)
-    (c_obs_batch fo re_match (cq_group fo q) (cq_keys fo q) (cq_args fo q)) (aconv_row fo (a_fbits fo ag))
+    (a_bits fo ag) (a_json_f fo ag) (a_parse fo ag) (a_json_s fo ag) seen []
+    (c_lobs_batch fo re_match ag (cq_group fo q) (cq_keys fo q) (cq_args fo q)) (aconv_row fo (a_fbits fo ag))
     B p sl.
 Proof.
-  intros Hok Hn Hnd. unfold abats_c, agg_bats, agg_batch, run_agg_batch, agg_obs_batch_c, ScanProj.drain_batch.
+  intros Hok Hn Hnd. unfold abats_c, agg_bats, agg_batch, run_agg_batch, agg_obs_batch_c, sdrain_batch.
   rewrite (agg_obs_batch_fuel_spec q Hok p Hn on B _ [] sl Hnd). unfold slot.
-  change (ScanProj.drain_batch_fuel (fb fo re_match (cq_sel fo q)) (obsb q) (S (List.length sl)) B sl)
-    with (@ScanProj.drain_batch_fuel kvpair pobs (filter_batch fo re_match true (s_where (cq_sel fo q)))
-            (c_obs_batch fo re_match (cq_group fo q) (cq_keys fo q) (cq_args fo q)) (S (List.length sl)) B sl).
-  destruct (@ScanProj.drain_batch_fuel kvpair pobs (filter_batch fo re_match true (s_where (cq_sel fo q)))
-            (c_obs_batch fo re_match (cq_group fo q) (cq_keys fo q) (cq_args fo q)) (S (List.length sl)) B sl)
+  change (sdrain_batch_fuel (fb fo re_match (cq_sel fo q)) (lobsb q p) (S (List.length sl)) B [] sl)
+    with (@sdrain_batch_fuel kvpair pobs seen (filter_batch fo re_match true (s_where (cq_sel fo q)))
+            (c_lobs_batch fo re_match ag (cq_group fo q) (cq_keys fo q) (cq_args fo q) p) (S (List.length sl)) B [] sl).
+  destruct (@sdrain_batch_fuel kvpair pobs seen (filter_batch fo re_match true (s_where (cq_sel fo q)))
+            (c_lobs_batch fo re_match ag (cq_group fo q) (cq_keys fo q) (cq_args fo q) p) (S (List.length sl)) B [] sl)
     as [chunks|e| |]; cbn [bind]; reflexivity.
 Qed.
 
